@@ -6,7 +6,7 @@ same snapshot; (R3) DELETE runs under the table lock (Table::update + delete_loc
 Does not decide: delete-vector offset arithmetic, the stale-snapshot window (C09-R1)."""
 import re
 
-from tmpl import site, start_sites, suffix, flows_from, origin_locals, pl_fields
+from tmpl import site, start_sites, suffix, flows_from, origin_locals, pl_fields, stream_loop, int_counters
 
 SEC = 'storage::secondary::'
 COMPACT = SEC + 'compactor::Compactor::compact_table::{closure#0}'
@@ -79,6 +79,20 @@ def run(ctx):
                    f'&mut borrows of `{b.var_name(S)}` at blocks {muts}; reachable after the inputs were opened: {late}',
                    [site(b, x) for x in late])
 
+        # the DVs that are read (to hide deleted rows from the merge) and the DVs that are tombstoned (DeleteDV) belong to the
+        # row-sets of that same collection: every Snapshot::get_dvs_of in compact_table takes its row-set id from it
+        if read_src and len(read_src) == 1:
+            S = next(iter(read_src))
+            gd = [c for c in b.calls if (c.fn or '').endswith('Snapshot::get_dvs_of')]
+            if ctx.anchor(R1, 'compact_table:Snapshot::get_dvs_of', gd):
+                bad = [c for c in gd if not (len(c.args) > 2 and c.args[2]['k'] != 'const' and S in origin_locals(b, c.args[2]['pl']['l'], depth=20))]
+                ctx.ob(R1, 'compact_table·dvs-of-the-read-set', not bad,
+                       f'{len(gd)} get_dvs_of call(s); row-set id not taken from `{b.var_name(S)}`: {[site(b, c.bb) for c in bad]}',
+                       [site(b, c.bb) for c in (bad or gd)],
+                       what='compaction reads or tombstones the delete vectors of row-sets it did not merge: deleted rows of the '
+                            'untouched row-sets reappear')
+            ctx.floor(R1, len(gd), 2, 'get_dvs_of call sites in compact_table (inputs + tombstones)')
+
     R2 = 'C07-R2'
     ctx.rule(R2, 'every DiskRowset::iter call (compaction, scan) passes as `dvs` a value that flows from Snapshot::get_dvs_of')
     n = 0
@@ -132,6 +146,60 @@ def run(ctx):
         ctx.ob(R3, 'SecondaryTransaction::delete·asserts-lock', bool(reads) and bool(chk) and bool(pan),
                f'delete() must test `delete_lock` (reads at {reads}, is_some at {[c.bb for c in chk]}) and panic without it '
                f'(panic blocks {sorted(pan)})', [site(bd, c.bb) for c in chk])
+
+    # R4 ----------------------------------------------------------------------------------------------
+    R4 = 'C07-R4'
+    ctx.rule(R4, 'DELETE reports what it removed: in DeleteExecutor every batch received from the child advances the row count '
+                 '(by the batch\'s cardinality) before the next batch is asked for, that count is what the statement yields, and '
+                 'every row handler of the batch (0..len of the handler column) is handed to Transaction::delete')
+    bd = prog.body('executor::delete::DeleteExecutor::<S>::execute::{closure#0}')
+    if ctx.anchor(R4, 'executor::delete::DeleteExecutor::execute', bd is not None):
+        ctx.functions_analysed.add(bd.name)
+        polls, some_targets = stream_loop(bd)
+        cnts = int_counters(bd)
+        if ctx.anchor(R4, 'DeleteExecutor: child poll / Some arm', polls and some_targets) and \
+                ctx.anchor(R4, 'DeleteExecutor: row counter', cnts):
+            errs = bd.error_exit_blocks()
+            for cnt, (blocks, srcs) in sorted(cnts.items()):
+                reach = bd.reachable_from(some_targets, avoid=set(blocks) | errs)
+                skipped = sorted(reach & set(polls))
+                ctx.ob(R4, f'DeleteExecutor·counter-advances·{bd.var_name(cnt) or cnt}', not skipped,
+                       f'counter `{bd.var_name(cnt)}` advanced at {blocks}; next poll reachable from a received batch without it: {skipped}',
+                       [site(bd, b_) for b_ in blocks])
+                from_card = any(any((c.fn or '').endswith(('DataChunk::cardinality', 'ArrayImpl::len')) and c.dest['l'] in origin_locals(bd, s_)
+                                    for c in bd.calls) for s_ in srcs)
+                ctx.ob(R4, f'DeleteExecutor·counts-batch-rows·{bd.var_name(cnt) or cnt}', from_card,
+                       'the amount added must derive from the received batch (DataChunk::cardinality / ArrayImpl::len)',
+                       [site(bd, b_) for b_ in blocks])
+            single = [c for c in bd.calls if (c.fn or '').endswith('DataChunk::single')]
+            if ctx.anchor(R4, 'DeleteExecutor: DataChunk::single', single):
+                ok = any(a['k'] != 'const' and set(cnts) & origin_locals(bd, a['pl']['l']) for c in single for a in c.args)
+                ctx.ob(R4, 'DeleteExecutor·yields-the-count', bool(ok), 'the chunk yielded at the end must carry the row counter',
+                       [site(bd, single[0].bb)])
+        dels = [c for c in bd.calls if (c.fn or '') == 'storage::Transaction::delete']
+        fc = [c for c in bd.calls if (c.fn or '') == 'storage::RowHandler::from_column']
+        aa = [c for c in bd.calls if (c.fn or '').endswith('DataChunk::array_at')]
+        if ctx.anchor(R4, 'DeleteExecutor: Transaction::delete / from_column / array_at', dels and fc and aa):
+            aa_d = {c.dest['l'] for c in aa}
+            fc_d = {c.dest['l'] for c in fc}
+            ok1 = all(len(c.args) > 1 and c.args[1]['k'] != 'const' and fc_d & origin_locals(bd, c.args[1]['pl']['l']) for c in dels)
+            ok2 = all(c.args and c.args[0]['k'] != 'const' and aa_d & origin_locals(bd, c.args[0]['pl']['l']) for c in fc)
+            ctx.ob(R4, 'DeleteExecutor·deletes-the-scanned-handlers', ok1 and ok2,
+                   'Transaction::delete must receive a handler built by RowHandler::from_column from the batch\'s handler column',
+                   [site(bd, c.bb) for c in dels])
+            # loop bound: Range { start: 0, end: len(handler column) }
+            rngs = [(bb, st) for bb, st in bd.aggregates('std::ops::Range')]
+            good = False
+            for bb, st in rngs:
+                ops = st['rv'].get('ops', [])
+                if len(ops) == 2 and ops[0]['k'] == 'const' and ops[0].get('v', '').replace('const ', '') == '0_usize' and ops[1]['k'] != 'const':
+                    o = origin_locals(bd, ops[1]['pl']['l'])
+                    lens = [c for c in bd.calls if (c.fn or '').endswith('ArrayImpl::len') and c.dest['l'] in o]
+                    if lens and any(aa_d & origin_locals(bd, c.args[0]['pl']['l']) for c in lens if c.args and c.args[0]['k'] != 'const'):
+                        good = True
+            ctx.ob(R4, 'DeleteExecutor·every-handler-of-the-batch', good,
+                   f'the handler loop must run over 0..len(handler column) ({len(rngs)} range(s) examined)',
+                   [site(bd, rngs[0][0])] if rngs else [])
 
 
 def __places(st):
